@@ -348,3 +348,11 @@ Proof.
     + eapply exhausted_sim; [apply (psim_step f n Hn)|exact HSe|exact Hex].
     + exists lc. auto.
 Qed.
+
+(* the constructors with a caller-chosen fuel (used by the correspondence driver for large
+   parameters) build the same state as the real ones when given the proved bound *)
+Lemma init_with_bound : forall ns n,
+  rpprod_init ns = rpprod_init_with (rp_fuel ns) ns /\
+  rpperm_init n = rpperm_init_with (rx_fuel n) n /\
+  pattern_init n = pattern_init_with (pb_fuel n) n.
+Proof. intros. repeat split. Qed.
